@@ -148,8 +148,9 @@ def should_strip_fragment(fragment):
 
 
 def normalize_hostname(hostname, normalize_amp=True):
-    hostname = hostname.strip().lower()
+    # NOTE: same order as normalize_url: whitespace can hide behind control chars
     hostname = CONTROL_CHARS_RE.sub("", hostname)
+    hostname = hostname.strip().lower()
 
     pattern = IRRELEVANT_SUBDOMAIN_AMP_RE if normalize_amp else IRRELEVANT_SUBDOMAIN_RE
 
@@ -179,7 +180,8 @@ def get_normalized_hostname(url, normalize_amp=True, infer_redirection=True):
         splitted = url
     else:
         try:
-            splitted = urlsplit(ensure_protocol(url.strip()))
+            url = CONTROL_CHARS_RE.sub("", url).strip()
+            splitted = urlsplit(ensure_protocol(url))
         except ValueError:
             return None
 
